@@ -220,18 +220,24 @@ Section Check.
   Definition parent_is (p : option cls) (k : cls) : bool :=
     match p with Some c => cls_eqb c k | None => false end.
 
-  (* the "value" expressions a field may hold according to the property: a word or a phrase,
-     possibly approximated or boosted, or a parenthesised field group.  (Ranges, open ranges and
-     regexes directly after "field:" are NOT in this list: the checker refuses them, see the
-     remark in props/C20.v.) *)
+  (* the "value" expressions a field may hold: a word, a phrase or a regex, possibly approximated or
+     boosted, a range or a comparison, or a parenthesised field group (LuceneCheck.FIELD_EXPR_FIELDS, generated;
+     ranges, comparisons and regexes are accepted since fix F25) *)
   Definition value_expr (e : item) : bool :=
     match e with
-    | Term KWord _ _ | Term KPhrase _ _ | Fuzzy _ _ _ _ | Proximity _ _ _ _ | Boost _ _ _ _
-    | Grp KFieldGroup _ _ => true
+    | Term _ _ _ | Fuzzy _ _ _ _ | Proximity _ _ _ _ | Boost _ _ _ _
+    | Grp KFieldGroup _ _ | Range _ _ _ _ _ | ORange _ _ _ _ => true
     | _ => false
     end.
-  Definition range_bound (e : item) : bool :=
+  (* a bound: a word or a phrase, possibly with the minus sign the grammar allows in a range *)
+  Definition plain_bound (e : item) : bool :=
     match e with Term KWord _ _ | Term KPhrase _ _ => true | _ => false end.
+  Definition range_bound (e : item) : bool :=
+    match e with
+    | Term KWord _ _ | Term KPhrase _ _ => true
+    | Unary KProhibit _ a => plain_bound a
+    | _ => false
+    end.
 
   (* a tree assembled only from well-formed constructs; p = class of the parent, None at the root.
      With zeal, the constructs the zealous rules call pitfalls are excluded as well (a word with
